@@ -6,6 +6,7 @@ import importlib.util
 
 TEMPLATE = '''PEER = None
 ME = None
+HOOK = None
 
 
 def _target(name):
@@ -31,6 +32,9 @@ def f(s):
         elif op[0] == 'gen':
             for y in gen(op[1]):
                 x += y
+        elif op[0] == 'cfg':
+            if HOOK is not None:
+                HOOK(op[1])  # TP:f_cfg
         else:
             x += 1  # TP:f_plain
     return x  # TP:f_last
@@ -67,7 +71,9 @@ class Host:
         self.paths = {}
         self.marks = {}
         for key in ('a', 'b'):
-            name = 'vh%s_%s' % (key, tag)
+            # file b's name is a proper suffix of file a's name: a tracepoint names ONE file, and a file whose name
+            # merely ends with (or contains) that name is a different file
+            name = ('xvh_%s' if key == 'a' else 'vh_%s') % tag
             path = os.path.join(workdir, name + '.py')
             src = TEMPLATE.replace('MYNAME', repr(key))
             with open(path, 'w') as fh:
@@ -104,6 +110,11 @@ def random_script(rng, depth=0, max_depth=3, max_len=3):
     for _ in range(rng.randint(0, max_len)):
         k = rng.choice(['line', 'line', 'call', 'call', 'try', 'raise', 'gen'] if depth < max_depth
                        else ['line', 'line', 'raise'])
+        if rng.random() < 0.06:
+            # the service changes the configuration while the program is in the middle of something: the bitmask says
+            # which of the scenario's tracepoints remain (0 = all removed)
+            ops.append(('cfg', rng.choice([0, 0, 1, 2, 5, 255])))
+            continue
         if k in ('call', 'try'):
             ops.append((k, rng.choice(['a.f', 'a.g', 'b.f', 'b.g', 'a.f']), random_script(rng, depth + 1, max_depth, max_len)))
         elif k == 'gen':
